@@ -5,7 +5,8 @@
 //! concurrently, each executing 1..4 hooked calls one after the other, every call on its
 //! own descriptor: recv/read of a payload unique to (actor, call) that the harness writes
 //! `delay` ms after the call began, send/write of a unique payload, recv at end-of-stream,
-//! send to a closed peer (EPIPE), recv on a bad descriptor (EBADF), a recv that runs into its
+//! send to a closed peer (EPIPE), recv on a bad descriptor (EBADF), sendto on a datagram
+//! pair and on a non-socket (ENOTSOCK), a recv that runs into its
 //! SO_RCVTIMEO followed by a second recv on the same socket after data arrived, and
 //! pwrite + pread on a temporary file.
 //! Oracle: every call returns the byte count and exactly the data of its own descriptor; a
@@ -38,6 +39,10 @@ pub enum Call {
     /// `len` bytes and recv #2 on the same socket must return exactly them
     RecvTimeoutThenData { len: u8 },
     PwritePread { len: u8, off: u8 },
+    /// sendto of a UDP datagram over loopback to a receiver of this call's own
+    Sendto { len: u8 },
+    /// sendto on a descriptor that is not a socket: -1 with ENOTSOCK
+    SendtoNotSocket { len: u8 },
 }
 
 #[derive(Debug, Clone, Serialize, Deserialize)]
@@ -66,6 +71,8 @@ pub fn strategy(with_timeout_shape: bool) -> impl Strategy<Value = Case> {
         2 => Just(Call::RecvBadFd),
         2 => (1u8..60).prop_map(move |len| if with_timeout_shape { Call::RecvTimeoutThenData { len } } else { Call::Recv { len, delay_ms: 12 } }),
         2 => (1u8..120, 0u8..50).prop_map(|(len, off)| Call::PwritePread { len, off }),
+        3 => (1u8..120).prop_map(|len| Call::Sendto { len }),
+        1 => (1u8..60).prop_map(|len| Call::SendtoNotSocket { len }),
     ];
     (1u8..=2, proptest::collection::vec((any::<bool>(), proptest::collection::vec(call, 1..5)).prop_map(|(in_task, calls)| Actor { in_task, calls }), 2..7)).prop_map(|(loops, mut actors)| {
         // the timeout-then-data shape is generated for task callers only: a plain thread
@@ -136,6 +143,62 @@ fn run_actor(a: usize, calls: &[Call], out: &Out) {
                 let n = unsafe { libc::recv(peer, got.as_mut_ptr().cast(), 200, libc::MSG_DONTWAIT) };
                 let ok = r == data.len() as isize && n == data.len() as isize && got[..data.len()] == data[..];
                 json!({"ok":ok,"ret":r,"errno":e,"want":data.len(),"peer_got":n,"what":"all bytes sent once, in order, to this call's own peer"})
+            }
+            Call::Sendto { len } => {
+                // UDP over loopback (the zero-copy send the hook uses is not supported on
+                // AF_UNIX sockets): receiver bound to 127.0.0.1:0, destination passed explicitly
+                let (rx, tx, addr, alen) = unsafe {
+                    let rx = libc::socket(libc::AF_INET, libc::SOCK_DGRAM, 0);
+                    let tx = libc::socket(libc::AF_INET, libc::SOCK_DGRAM, 0);
+                    let mut addr: libc::sockaddr_in = std::mem::zeroed();
+                    addr.sin_family = libc::AF_INET as libc::sa_family_t;
+                    addr.sin_addr.s_addr = u32::from_ne_bytes([127, 0, 0, 1]);
+                    addr.sin_port = 0;
+                    let mut alen = std::mem::size_of::<libc::sockaddr_in>() as libc::socklen_t;
+                    let b = libc::bind(rx, std::ptr::from_ref(&addr).cast(), alen);
+                    let g = libc::getsockname(rx, std::ptr::from_mut(&mut addr).cast(), &mut alen);
+                    if rx < 0 || tx < 0 || b != 0 || g != 0 {
+                        (-1, -1, addr, alen)
+                    } else {
+                        (rx, tx, addr, alen)
+                    }
+                };
+                if rx < 0 {
+                    json!({"ok":true,"skipped":"no loopback UDP in this environment","ret":0,"errno":0,"want":0,"what":""})
+                } else {
+                    let data = payload(a, k, usize::from(len));
+                    let r = hooked::sendto(None, tx, data.as_ptr().cast(), data.len(), libc::MSG_NOSIGNAL, std::ptr::from_ref(&addr).cast(), alen);
+                    let e = errno();
+                    let mut got = vec![0u8; 200];
+                    // the datagram is in the receive queue once the send has completed
+                    let mut n = -1;
+                    for _ in 0..50 {
+                        n = unsafe { libc::recv(rx, got.as_mut_ptr().cast(), 200, libc::MSG_DONTWAIT) };
+                        if n >= 0 {
+                            break;
+                        }
+                        std::thread::sleep(Duration::from_millis(1));
+                    }
+                    unsafe {
+                        libc::close(rx);
+                        libc::close(tx);
+                    }
+                    let ok = r == data.len() as isize && n == data.len() as isize && got[..data.len()] == data[..];
+                    json!({"ok":ok,"ret":r,"errno":e,"want":data.len(),"peer_got":n,"what":"the datagram is delivered once to this call's own receiver and its length is returned"})
+                }
+            }
+            Call::SendtoNotSocket { len } => {
+                let path = format!("/tmp/c27-ns-{}-{a}-{k}", std::process::id());
+                let cpath = std::ffi::CString::new(path).unwrap();
+                let fd = unsafe { libc::open(cpath.as_ptr(), libc::O_CREAT | libc::O_RDWR | libc::O_TRUNC, 0o600) };
+                let data = payload(a, k, usize::from(len));
+                let r = hooked::sendto(None, fd, data.as_ptr().cast(), data.len(), libc::MSG_NOSIGNAL, std::ptr::null(), 0);
+                let e = errno();
+                unsafe {
+                    libc::close(fd);
+                    libc::unlink(cpath.as_ptr());
+                }
+                json!({"ok": r == -1 && e == libc::ENOTSOCK,"ret":r,"errno":e,"want":-1,"what":"-1 with ENOTSOCK"})
             }
             Call::RecvEof { delay_ms } => {
                 let (fd, peer) = pair();
@@ -267,7 +330,7 @@ pub fn exec(c: &Case) -> Outcome {
     let r = child::run_child(&ChildSpec { args: vec!["C27child".into()], stdin: &js, timeout: Duration::from_secs(8), env: vec![] });
     let mut o = Outcome::pass();
     let ncalls: usize = c.actors.iter().map(|a| a.calls.len()).sum();
-    let errs = c.actors.iter().flat_map(|a| a.calls.iter()).filter(|x| matches!(x, Call::SendClosedPeer { .. } | Call::RecvBadFd | Call::RecvTimeoutThenData { .. })).count();
+    let errs = c.actors.iter().flat_map(|a| a.calls.iter()).filter(|x| matches!(x, Call::SendClosedPeer { .. } | Call::RecvBadFd | Call::RecvTimeoutThenData { .. } | Call::SendtoNotSocket { .. })).count();
     o.nontrivial = c.actors.len() >= 4 && errs >= 1;
     o = o
         .class_if(c.actors.len() >= 4, "4+concurrent-actors")
@@ -356,6 +419,8 @@ fn kind(c: &Call) -> &'static str {
         Call::RecvBadFd => "recv-bad-fd",
         Call::RecvTimeoutThenData { .. } => "recv-timeout-then-data",
         Call::PwritePread { .. } => "pwrite-pread",
+        Call::Sendto { .. } => "sendto",
+        Call::SendtoNotSocket { .. } => "sendto-not-a-socket",
     }
 }
 
@@ -387,7 +452,7 @@ pub fn main(args: &Args) -> i32 {
         &RunCfg {
             property: "C27",
             sub: "io_uring",
-            rule: "fresh child per case: 1..2 event loops, 2..6 concurrent actors (task | thread) x 1..4 hooked calls (recv/read/send/write/eof/EPIPE/EBADF/timeout-then-data/pwrite+pread), each call on its own descriptor with a payload unique to it; non-trivial = >= 4 actors and >= 1 error completion",
+            rule: "fresh child per case: 1..2 event loops, 2..6 concurrent actors (task | thread) x 1..4 hooked calls (recv/read/send/write/sendto/eof/EPIPE/EBADF/ENOTSOCK/pwrite+pread), each call on its own descriptor with a payload unique to it; non-trivial = >= 4 actors and >= 1 error completion",
             seed: args.seed,
             cases: args.cases(600, 8_000),
             shards: 8,
